@@ -164,6 +164,7 @@ SimOther ==
 \* fewest steps (key packages, by-value adds three at a time, joins), so that the random part of the behaviour
 \* runs on a full tree (deep paths, many receivers at different distances, room for interior blanks)
 CONSTANT BootSize
+SuccAfter == 25       \* simulation: no re-init commit before this depth (the old group needs some history first)
 
 Outstanding == {i \in 1..Len(kps) : ~kps[i].used /\ kps[i].bad = ""}
 Booting == BootSize > 0 /\ Cardinality(Mem) < BootSize /\ TLCGet("level") < 6 * BootSize
@@ -189,6 +190,43 @@ SimObs ==
     \/ obs.st = "on" /\ Len(apps) > 0 /\ \E a \in {RandomElement(1..Len(apps))} : ObsDeliverApp(a, apps[a].lo)
     \/ obs.st = "on" /\ RandomElement(1..(6 + Z)) = 1 /\ ObsSnapshotRestore
 
+\* successor groups: key packages of members, creation with the exact member set / one missing / an outsider
+\* added, joins through the right and the wrong API; a by-value re-init commit once the group has some history
+NewestSuccKp(q) == LET c == {i \in SuccKps : kps[i].owner = q} IN IF c = {} THEN {} ELSE {CHOOSE i \in c : \A j \in c : j <= i}
+PickSuccSet(p) ==
+    LET old == Members(grp[p].tree) \ {p}
+        exact == UNION {NewestSuccKp(q) : q \in old}
+        outs == UNION {NewestSuccKp(q) : q \in Parties \ Members(grp[p].tree)}
+        r == RandomElement(1..(10 + Z))
+    IN IF r <= 6 \/ exact = {} THEN exact
+       ELSE IF r <= 8 THEN exact \ {RandomElement(exact)}
+       ELSE IF outs # {} THEN exact \cup {RandomElement(outs)}
+       ELSE exact
+ReinitCommitted == \E n \in 1..Len(commits) : commits[n].reinit
+SimReinitCommit ==
+    "reinit" \in Features /\ TLCGet("level") > SuccAfter /\ ~ReinitCommitted /\
+    \E p \in {q \in Mem : ~grp[q].frozen /\ grp[q].cache = {} /\ grp[q].pend = 0} :
+        Commit(p, <<[kind |-> "reinit", ref |-> 0, by |-> grp[p].leaf]>>, FALSE)
+CanGenSucc == {p \in Parties : Len(kps) < MaxKps /\ ~\E i \in SuccKps : kps[i].owner = p /\ ~\E s \in 1..Len(succ) : i \in Range(succ[s].kp)}
+SimSuccGen == CanGenSucc # {} /\ \E p \in {RandomElement({q \in CanGenSucc : Z = 0})} : GenSuccKeyPackage(p)
+SimSuccCreate ==
+    \E p \in OneMem : \E kind \in {IF grp[p].frozen THEN <<"reinit", "reinit", "reinit", "branch">>[RandomElement(1..(4 + Z))]
+                                                      ELSE <<"branch", "branch", "reinit">>[RandomElement(1..(3 + Z))]} :
+        \E S \in {PickSuccSet(p)} : SuccCreate(kind, p, S)
+Joinable == {s \in 1..Len(succ) : DOMAIN succ[s].kp # {}}
+SimSuccJoin ==
+    Joinable # {} /\ \E s \in {RandomElement({x \in Joinable : Z = 0})} : \E q \in {RandomElement(DOMAIN succ[s].kp)} :
+        \E how \in {IF HasGroup(q) THEN <<"reinit", "branch", "plain", succ[s].kind, succ[s].kind, succ[s].kind>>[RandomElement(1..(6 + Z))] ELSE "plain"} :
+            SuccJoin(q, s, how)
+SimSucc ==
+    \E r \in {RandomElement(1..(100 + Z))} :
+        IF r <= 45 /\ ENABLED SimReinitCommit THEN SimReinitCommit /\ UNCHANGED <<obs, succ>>
+        ELSE IF r <= 60 /\ ENABLED SimSuccGen THEN SimSuccGen /\ UNCHANGED obs
+        ELSE IF r <= 80 /\ ENABLED SimSuccCreate THEN SimSuccCreate /\ UNCHANGED obs
+        ELSE IF ENABLED SimSuccJoin THEN SimSuccJoin /\ UNCHANGED obs
+        ELSE IF ENABLED SimSuccGen THEN SimSuccGen /\ UNCHANGED obs
+        ELSE SimSuccCreate /\ UNCHANGED obs
+
 SimMember ==
     IF Booting THEN Bootstrap
     ELSE \E r \in {RandomElement(1..(100 + Z))} :
@@ -196,8 +234,10 @@ SimMember ==
 
 SimNext ==
     IF "observer" \in Features /\ ~Booting /\ RandomElement(1..(100 + Z)) <= 25 /\ ENABLED SimObs
-    THEN SimObs
-    ELSE SimMember /\ UNCHANGED obs
+    THEN SimObs /\ UNCHANGED succ
+    ELSE IF "succ" \in Features /\ ~Booting /\ RandomElement(1..(100 + Z)) <= (IF \E p \in Parties : HasGroup(p) /\ grp[p].frozen THEN 70 ELSE 25) /\ ENABLED SimSucc
+    THEN SimSucc
+    ELSE SimMember /\ UNCHANGED <<obs, succ>>
 
 SimSpec == Init /\ [][Logged(SimNext)]_vars
 
